@@ -434,6 +434,11 @@ class Watcher(object):
 
         process = self.processes.pop(pid)
 
+        # its pipes are about to be closed: stop watching them first, the
+        # descriptor numbers are going to be reused by other files
+        if self.stream_redirector:
+            self.stream_redirector.remove_redirections(process)
+
         timeout = 0.001
 
         while status is None:
